@@ -25,6 +25,9 @@ type c16Params struct {
 	N        int    `json:"n"`        // records sent
 	Deliver  []int  `json:"deliver"`  // delivery sequence: index of sent record; negative: forged variant of record -(i+1)
 	SeqExp   int    `json:"seq_exp,omitempty"` // the sender's records start 3 below 2^SeqExp of the 48-bit sequence number (0: they start where the handshake left it)
+	// Glue: a forged entry of the delivery sequence travels in ONE datagram together with (in front of) the genuine
+	// record that follows it in the sequence
+	Glue     bool   `json:"glue,omitempty"`
 	ForgeHow []int  `json:"forge"`    // per negative entry (in order): 0 flip body byte, 1 flip tag/mac byte, 2 wrong epoch, 3 seq rewritten to a fresh number, 4 garbage with valid-looking header, 5 version, 6 length beyond the datagram, 7 length 0xffff, 8 datagram shorter than a record header, 9 content type
 	Boundary bool   `json:"boundary"` // delivery order built around the window edge
 }
@@ -32,7 +35,7 @@ type c16Params struct {
 func (c16) ID() string    { return "C16" }
 func (c16) Level() string { return "exploration" }
 func (c16) Rule() string {
-	return "after a clean handshake the sender emits N records with unique payloads; the simulated network holds them back and then delivers a seeded sequence: any order, duplicates, replays of much older records, gaps, and forgeries interleaved at any point (flipped ciphertext / tag byte, older / next / far epoch, rewritten sequence number, garbage behind a plausible header, changed version, length field beyond the datagram or 0xffff, datagram shorter than a header, changed content type); ReplayWindow 0 (default) and 32..160; GCM and CBC; receiver through ReadFrom, Read, or both in turn; the records may start just below 2^16, 2^24, 2^32, 2^40 or 2^47 of the 48-bit sequence number (hook VerifSetWriteSeq); some sequences are built around the window edge (newest-W, newest-W+1, ...). Oracle: set-based reference model - every delivered payload was sent, none twice, forgeries never delivered and without effect on later acceptance, and every genuine first arrival that is newer than all accepted or within max(32, min(configured,64)) behind the newest IS delivered. Each case also compares the window object (hook) with the same model on a seeded number sequence. distinct = distinct (parameters, delivery sequence); non-trivial = at least one duplicate or forgery was delivered to a live receiver"
+	return "after a clean handshake the sender emits N records with unique payloads; the simulated network holds them back and then delivers a seeded sequence: any order, duplicates, replays of much older records, gaps, and forgeries interleaved at any point (flipped ciphertext / tag byte, older / next / far epoch, rewritten sequence number, garbage behind a plausible header, changed version, length field beyond the datagram or 0xffff, datagram shorter than a header, changed content type); ReplayWindow 0 (default), 1..31 (below the floor of 32) and 32..160; on the Read path a forged record may share its datagram with the genuine record behind it; GCM and CBC; receiver through ReadFrom, Read, or both in turn; the records may start just below 2^16, 2^24, 2^32, 2^40 or 2^47 of the 48-bit sequence number (hook VerifSetWriteSeq); some sequences are built around the window edge (newest-W, newest-W+1, ...). Oracle: set-based reference model - every delivered payload was sent, none twice, forgeries never delivered and without effect on later acceptance, and every genuine first arrival that is newer than all accepted or within max(32, min(configured,64)) behind the newest IS delivered. Each case also compares the window object (hook) with the same model on a seeded number sequence. distinct = distinct (parameters, delivery sequence); non-trivial = at least one duplicate or forgery was delivered to a live receiver"
 }
 func (c16) Components() (real, stub []string) {
 	return []string{"dtlcp client+server (instrumented): record authentication, epoch handling, replay window, ReadFrom and Read paths"},
@@ -54,9 +57,13 @@ func (c16) Make(tier string, seed uint64, i int) *Case {
 func drawC16(src *vs.Src) *c16Params {
 	p := &c16Params{}
 	p.Suite = pickU16(src, []uint16{ECC_GCM, ECC_CBC})
-	p.Window = pickInt(src, []int{0, 0, 32, 33, 48, 63, 64, 65, 96, 128, 160})
+	p.Window = pickInt(src, []int{0, 0, 1, 8, 16, 31, 32, 33, 48, 63, 64, 65, 96, 128, 160})
 	p.Sender = src.Intn(2)
 	p.API = pickStr(src, []string{"readfrom", "readfrom", "read", "mixed"})
+	// only on the Read path, which takes a datagram record by record; ReadFrom takes one record per datagram
+	// (the library's sender never packs application records), so that a datagram changed in transit is, for
+	// it, a datagram that did not arrive
+	p.Glue = p.API == "read" && src.Bool(1, 2)
 	p.SeqExp = pickInt(src, []int{0, 0, 0, 16, 24, 32, 40, 47})
 	p.Boundary = src.Bool(1, 2)
 	if p.Boundary {
@@ -194,8 +201,10 @@ func (c16) Run(c *Case, src *vs.Src) *Result {
 	w.Go("network", func() {
 		vs.Block(func() bool { return sentAll }, time.Time{})
 		fi := 0
+		glued := map[int]bool{}
 		for k, d := range p.Deliver {
 			var data []byte
+			how := 0
 			if d >= 0 {
 				if d >= len(held) {
 					continue
@@ -206,12 +215,19 @@ func (c16) Run(c *Case, src *vs.Src) *Result {
 				if i >= len(held) {
 					continue
 				}
-				how := 0
 				if fi < len(p.ForgeHow) {
 					how = p.ForgeHow[fi]
 				}
 				fi++
 				data = c16Forge(held[i].Data, how, k)
+			}
+			if p.Glue && d < 0 && how <= 4 && k+1 < len(p.Deliver) && p.Deliver[k+1] >= 0 && p.Deliver[k+1] < len(held) {
+				// this forgery and the next (genuine) record share a datagram; the genuine one is not sent again
+				data = append(append([]byte{}, data...), held[p.Deliver[k+1]].Data...)
+				glued[k+1] = true
+			}
+			if glued[k] {
+				continue
 			}
 			pair.Net.Inject(&simnet.Dgram{Data: data, From: held[0].From, To: held[0].To, Dir: sendDir, At: vs.Now().Add(time.Duration(k+1) * time.Millisecond)})
 		}
